@@ -106,9 +106,15 @@ void globalLedgerReport() {
 // ------------------------------------------------------------------------------------------------
 struct ChunkSpec {
     // "" => everything the caller asks for; "N" fixed size; "rSEEDmMAX" random 1..MAX; "lA,B,C,*" list then all
-    int fixed; unsigned long rnd; int rmax; std::vector<long> list; bool isList; bool isRnd;
-    ChunkSpec() : fixed(0), rnd(0), rmax(0), isList(false), isRnd(false) {}
-    static ChunkSpec parse(const std::string& s) {
+    int fixed; unsigned long rnd; int rmax; std::vector<long> list; bool isList; bool isRnd; long first;
+    ChunkSpec() : fixed(0), rnd(0), rmax(0), isList(false), isRnd(false), first(0) {}
+    static ChunkSpec parse(const std::string& s0) {
+        std::string s = s0; long first = 0;
+        // "fN:<spec>": the first read delivers up to N bytes, then <spec> applies
+        if (!s.empty() && s[0] == 'f') { size_t c = s.find(':'); first = atol(s.c_str() + 1); s = c == std::string::npos ? "" : s.substr(c + 1); }
+        ChunkSpec c = parse2(s); c.first = first; return c;
+    }
+    static ChunkSpec parse2(const std::string& s) {
         ChunkSpec c; if (s.empty()) return c;
         if (s[0] == 'r') { c.isRnd = true; size_t m = s.find('m'); c.rnd = strtoul(s.substr(1, m - 1).c_str(), 0, 10) * 2654435761UL + 12345; c.rmax = m == std::string::npos ? 7 : atoi(s.c_str() + m + 1); if (c.rmax < 1) c.rmax = 1; }
         else if (s[0] == 'l') { c.isList = true; size_t p = 1; while (p <= s.size()) { size_t q = s.find(',', p); std::string t = s.substr(p, q == std::string::npos ? std::string::npos : q - p); c.list.push_back(t == "*" ? -1 : atol(t.c_str())); if (q == std::string::npos) break; p = q + 1; } }
@@ -125,7 +131,8 @@ public:
     const XMLCh* getContentType() const { return 0; }
     XMLSize_t readBytes(XMLByte* const to, const XMLSize_t maxToRead) {
         size_t left = data.size() - pos; size_t want = maxToRead;
-        if (spec.isRnd) { spec.rnd = spec.rnd * 6364136223846793005ULL + 1442695040888963407ULL; want = 1 + (size_t)((spec.rnd >> 33) % (unsigned long)spec.rmax); }
+        if (spec.first > 0 && pos == 0) want = (size_t)spec.first;
+        else if (spec.isRnd) { spec.rnd = spec.rnd * 6364136223846793005ULL + 1442695040888963407ULL; want = 1 + (size_t)((spec.rnd >> 33) % (unsigned long)spec.rmax); }
         else if (spec.isList) { long v = idx < spec.list.size() ? spec.list[idx] : -1; idx++; want = v <= 0 ? maxToRead : (size_t)v; }
         else if (spec.fixed > 0) want = spec.fixed;
         if (want > maxToRead) want = maxToRead;
@@ -557,7 +564,15 @@ static void runStep(Session& S, const Case& c, const Step& st, size_t idx) {
     feeder.stop();
     delete is;
     if (doc && r.d.on && optb(o, "domdump", true)) {
-        try { DomDumpOpts dopt; dopt.typeinfo = optb(o, "typeinfo", false); dumpDOM(doc, r.d, dopt); }
+        try {
+            DomDumpOpts dopt; dopt.typeinfo = optb(o, "typeinfo", false); dopt.lookups = optb(o, "lookups", false);
+            if (dopt.lookups) {
+                std::string lp = opts(o, "lkp", ""), lu = opts(o, "lku", "");
+                size_t a = 0; for (;;) { size_t b = lp.find(',', a); dopt.lkPrefixes.push_back(u16(lp.substr(a, b == std::string::npos ? std::string::npos : b - a))); if (b == std::string::npos) break; a = b + 1; }
+                a = 0; for (;;) { size_t b = lu.find('|', a); dopt.lkUris.push_back(u16(lu.substr(a, b == std::string::npos ? std::string::npos : b - a))); if (b == std::string::npos) break; a = b + 1; }
+            }
+            dumpDOM(doc, r.d, dopt);
+        }
         catch (const DOMException& e) { r.d.side("EXC\tDOMException-in-walk\t" + itos(e.code)); }
     }
     if (optb(o, "adopt", false) && (S.dom || S.ls) && doc) {
